@@ -18,6 +18,7 @@ FNV32_INIT, FNV32_PRIME = 33554467, 0x01000193
 FNV64_INIT, FNV64_PRIME = 0xcbf29ce484222325, 0x100000001b3
 HASH_BITS = 16
 TITLE_SZ = 65
+LEGACY_FW = bytes([0x5b, 0xc2, 0xe0, 0xbf, 0xfd, 0x5d])
 
 
 def toks(bs):
@@ -504,22 +505,23 @@ def main():
             c.violation("subjectex-suffix", "cmbbs.SubjectEx(%r) = (%d, %s): not a suffix of the title / type does not reflect a stripped prefix" % (t, ty, rest), {"cases": [ln], "got": toks(r)})
         elif cut and dbcs_status(p, cut - 1) == 1:
             c.violation("subjectex-splits-char", "cmbbs.SubjectEx(%r) cuts after a lead byte (at %d)" % (t, cut), {"cases": [ln], "got": toks(r)})
-        # an ASCII-only title must be parsed exactly as pttbbs' subject_ex does
-        if all(x < 0x80 for x in p):
-            q, ety = p, 0
-            while q:
-                low = bytes(q[:3]).lower()
-                if low == b"re:":
-                    q, ety = q[3:], 1
-                elif low == b"fw:":
-                    q, ety = q[3:], 2
-                else:
-                    break
-                if q and q[0] == 32:
-                    q = q[1:]
-            expect("cmbbs.SubjectEx (ASCII title)", "subjectex-ref", ln, r, [0, ety] + q)
+        # reference: pttbbs' subject_ex (strncasecmp against "Re:", "Fw:" and the legacy forward tag, one blank skipped)
+        q, ety = p, 0
+        while q:
+            low = bytes(lower(x) for x in q[:6])
+            if low[:3] == b"re:":
+                q, ety = q[3:], 1
+            elif low[:3] == b"fw:":
+                q, ety = q[3:], 2
+            elif low == LEGACY_FW:
+                q, ety = q[6:], 2
+            else:
+                break
+            if q and q[0] == 32:
+                q = q[1:]
+        expect("cmbbs.SubjectEx", "subjectex-ref", ln, r, [0, ety] + q, "(reference: strncasecmp against Re: / Fw: / legacy forward tag)")
         c.nontrivial(("sx", t))
-    c.sample({"op": "SubjectEx", "title": repr(titles[400]), "result": None})
+    c.sample({"op": "SubjectEx", "title": repr(titles[400])})
 
     # ------------------------------------------------------------------ binary helpers: all pairs + random pairs
     pa = PAIR_ALPHA_T if thorough else PAIR_ALPHA_Q
